@@ -2472,21 +2472,61 @@ protected:
             eMatchScore             score) const;
 
     /**
-     * Execute a step in a match pattern's location path.
-     *
-     * @param xpath The xpath that is executing
-     * @param context The current source tree context node
-     * @param opPos The current position in the xpath operation map array
-     * @param scoreHolder a reference to an eMatchScore to receive
-     * the result.
-     * @return the last matched context node
+     * A step of a match pattern's location path, with the
+     * step to the left of it.
      */
-    XalanNode*
+    struct PatternStep
+    {
+        PatternStep(
+                OpCodeMapPositionType   theOpPos,
+                const PatternStep*      thePrevious) :
+            m_opPos(theOpPos),
+            m_previous(thePrevious),
+            m_noMatchAbove(~XalanSize_t(0))
+        {
+        }
+
+        const OpCodeMapPositionType     m_opPos;
+
+        const PatternStep* const        m_previous;
+
+        // No ancestor of the node that is higher above it than
+        // this matches the steps to the left of this one.
+        mutable XalanSize_t             m_noMatchAbove;
+    };
+
+    /**
+     * Match a node against a match pattern's location path.
+     *
+     * @param executionContext The current execution context.
+     * @param context The node to match
+     * @param opPos The position of a step in the xpath operation map array
+     * @param previous The step to the left of that one, if any
+     * @return The resulting match score
+     */
+    eMatchScore
     stepPattern(
             XPathExecutionContext&  executionContext,
             XalanNode*              context, 
             OpCodeMapPositionType   opPos,
-            eMatchScore&            scoreHolder) const;
+            const PatternStep*      previous) const;
+
+    /**
+     * Match a node against a step of a match pattern's location
+     * path, and its ancestors against the steps to the left of it.
+     *
+     * @param executionContext The current execution context.
+     * @param context The node to match, which is the node the pattern is matched against, or an ancestor of it
+     * @param height The number of nodes from the node the pattern is matched against up to that node
+     * @param theStep The step
+     * @return The match score of the step for the node, or eMatchScoreNone
+     */
+    eMatchScore
+    matchPatternStep(
+            XPathExecutionContext&  executionContext,
+            XalanNode*              context, 
+            XalanSize_t             height,
+            const PatternStep&      theStep) const;
 
     OpCodeMapPositionType
     findNodeSet(
